@@ -19,11 +19,13 @@ from checks.routing_ref import lit, var
 ID = "C12"
 LEVEL = "exploration"
 RULE = (
-    "maps over a 49-rule universe: 28 general rules (C03 shapes, per-rule strict_slashes/merge_slashes, non-ASCII "
+    "maps over a 61-rule universe: 28 general rules (C03 shapes, per-rule strict_slashes/merge_slashes, non-ASCII "
     "literal, method sets) in all subsets of size 1-2 (3 over a reduced set); three canonicalisation groups - "
     "endpoint d (two defaults rules, converter rule as leaf/branch, alias rules with and without their own "
     "defaults, equal to / different from the canonical rule's), endpoint g (rules with DIFFERENT argument sets: "
-    "subset, superset, disjoint, defaults + converter mixed, alias with defaults), and rules inside rule factories "
+    "subset, superset, disjoint, defaults + converter mixed, alias with defaults), defaults pairs around falsy values "
+    "(int 0, float 0.0, signed -0, a default that is 0, False / True and None defaults on non-URL arguments; number "
+    "witnesses include 0, 0.0 and -0), and rules inside rule factories "
     "(defaults / alias / strict_slashes below EndpointPrefix, Submount, Subdomain) - in all valid subsets of size "
     "1-3 (4 in thorough) and next to a general string / path rule; an alias rule only together with a canonical "
     "rule that can express its arguments; x strict_slashes x merge_slashes x redirect_defaults x every insertion "
@@ -118,6 +120,20 @@ def _groups():
         "W2": S((lit("a"),), True, endpoint="w2", wrap=("submount",)),
         "W3": S((lit("b"), var("int")), True, strict=False, endpoint="w3", wrap=("endpointprefix",)),
         "W4": S((var("string", "s"),), True, endpoint="w4", wrap=("subdomain", "submount")),
+        # falsy / boundary values flowing through the defaults logic (0, 0.0, -0, False, None): a matched value that
+        # is falsy is still a supplied value, a sibling rule with another default must not take the request over
+        "Z0": S((lit("zl"),), False, defaults={"page": 1}, endpoint="z"),
+        "Z1": S((lit("zl"), var("int", "page")), False, endpoint="z"),
+        "ZF0": S((lit("zoom"),), True, defaults={"z": 1.0}, endpoint="zf"),
+        "ZF1": S((lit("zoom"), var("float", "z")), True, endpoint="zf"),
+        "ZS0": S((lit("zs"),), True, defaults={"n": 1}, endpoint="zs"),
+        "ZS1": S((lit("zs"), var("int(signed=True)", "n")), False, endpoint="zs"),
+        "ZD0": S((lit("zd"),), True, defaults={"page": 0}, endpoint="zd"),       # the default itself is falsy
+        "ZD1": S((lit("zd"), var("int", "page")), False, endpoint="zd"),
+        "IT0": S((lit("items"), var("int", "id")), False, defaults={"archived": False}, endpoint="it"),
+        "IT1": S((lit("archive"), var("int", "id")), False, defaults={"archived": True}, endpoint="it"),
+        "NI0": S((lit("ni"), var("int", "id")), False, defaults={"flag": None}, endpoint="ni"),
+        "NI1": S((lit("nj"), var("int", "id")), False, defaults={"flag": 1}, endpoint="ni"),
     }
     return d
 
@@ -129,6 +145,8 @@ D0, D1, D1B, AL, ALB = (ID[n] for n in ("D0", "D1", "D1B", "AL", "ALB"))
 DG = [ID[n] for n in ("D0", "D1", "D1B", "AL", "ALB", "D0B", "ALD99", "ALD1")]
 GG = [ID[n] for n in ("G0", "G1", "G2", "G3", "G4", "G5", "GA")]
 WG = [ID[n] for n in ("W0", "W1", "WA", "W2", "W3", "W4")]
+SG = [[ID[a], ID[b]] for a, b in (("Z0", "Z1"), ("ZF0", "ZF1"), ("ZS0", "ZS1"), ("ZD0", "ZD1"), ("IT0", "IT1"),
+                                  ("NI0", "NI1"))]
 
 
 def _ustr(sp):
@@ -191,7 +209,7 @@ def descriptors(tier):
     for c in itertools.combinations(pair_pool, 2):
         if emit(c):
             yield tuple(sorted(c))
-    for grp in (DG, GG, WG):
+    for grp in (DG, GG, WG, *SG):
         for k in (2, 3):
             for c in itertools.combinations(grp, k):
                 if emit(c):
@@ -235,7 +253,7 @@ BINDINGS = [
 MAP_KW = {"host": {"host_matching": True}, "defsub": {"default_subdomain": "www"}}
 MAP_OF = {"env": "sub"}            # the environ binding uses the map of the "sub" variant
 QUERIES = [None, "x=1&y=é", {"x": "a b"}, MultiDict([("k", "1"), ("k", "2"), ("e", "")])]
-EXTRA = {rr.STR: ["é b", "a%20b?y#z"], rr.PATH: ["é/x y"]}
+EXTRA = {rr.STR: ["é b", "a%20b?y#z"], rr.PATH: ["é/x y"], rr.NUM: ["0", "0.0", "-0"]}
 HOSTILE = ["//evil.com/a", "//evil.com//a/", "//evil.com", "/\\evil.com/a", "//evil.com/%2e%2e", "/é", "/a%20b", "/a b",
            "///evil.com/a//"]
 
@@ -442,7 +460,7 @@ def check_map(combo, R, tier):
                     return bind(ads[v], bi, qi, path, method)
 
                 cfg = (names, tuple(order), strict, merge, rd)
-                full = first_combo or (tier == "thorough" and (k <= 2 or is_group))
+                full = first_combo or (tier == "thorough" and (k <= 2 or (is_group and k <= 3)))
                 first_combo = False
                 ad0 = adapter(0, 0)
                 redirecting = []
